@@ -169,7 +169,13 @@ prop("C07", ["contracts.c01_client", "contracts.c02_server", "contracts.c12_bloc
      assumed=["every single disturbance of a response frame is covered by quantifying the response bytes universally in the per-step "
               "contracts; 'does not poison the next transfer' = ReqResp discards whatever was queued before the request (arbitrary stale content) "
               "and every stream starts from its own fresh state"],
-     not_decided=["timing races (a late response arriving after the flush and before the real response)"])
+     not_decided=["timing races (a late response arriving after the flush and before the real response)",
+                  "whole transfers: DisturbedPairDownload / DisturbedPairUpload prove, for the real client against the real server over "
+                  "env/pairnet.py DisturbingPairNet, that ONE disturbance of a response anywhere in a segmented transfer (lost, abort frame, "
+                  "flipped toggle, other command specifier, duplicated, other multiplexer, stale segment response with the other toggle "
+                  "arriving first) ends in an SDO error or in exactly the right data; 'the next transfer completes' is PairDownloadTheorem / "
+                  "PairUploadTheorem from arbitrary leftover state on both sides (C03); block transfers under disturbance: per step, the "
+                  "loss theorems of C12 / C13 and the bounded stand-in"])
 
 PROPS["C01"]["modules"].append("contracts.l01_transfers")
 PROPS["C01"]["contracts"].append("DownloadTheorem")
@@ -190,3 +196,5 @@ for _p in ("C03",):
     PROPS[_p]["contracts"] += ["PairDownloadTheorem", "PairExpedited", "PairUploadTheorem", "PairUploadSmall", "StackRoundTrip", "StackRoundTripSmall"]
 PROPS["C13"]["modules"].append("contracts.l13_blockupload_loss")
 PROPS["C13"]["contracts"].append("BlockUploadLossTheorem")
+PROPS["C07"]["modules"].append("contracts.l03_pair")
+PROPS["C07"]["contracts"] += ["DisturbedPairDownload", "DisturbedPairUpload"]
